@@ -194,8 +194,20 @@ def coloured_rings(rng):
                     yield Gr, Hr, 'ring%d-%s-period%d%s' % (n, what, period, '+tail' if tail else '')
 
 
+def all_cases(tier, seed):
+    rng = random.Random(seed)
+    yield from small_scope(tier)
+    yield from structured(rng, 150 if tier == 'quick' else 4000)
+    for r in coloured_rings(rng):
+        if tier != 'quick' or len(r[1]['nodes']) <= 6:
+            yield r
+
+
 def _run_events(args):
-    cases, seed = args
+    # every worker enumerates the cases itself and keeps its share (contiguous blocks of 50, dealt round-robin): the list of
+    # all thorough cases is several GB once it is copied into 16 forked workers
+    tier, seed, part, nparts = args
+    cases = [c for i, c in enumerate(all_cases(tier, seed)) if (i // 50) % nparts == part]
     out = []
     # One symmetry cache shared by all matchers of this worker, as RepairGraph shares one across residues: a matcher must
     # give the same answers whatever other patterns were analysed before it (every third case runs without a cache).
@@ -258,14 +270,9 @@ def run(tier, seed, ev, vd):
                'Non-trivial = both graphs have >= 2 nodes; distinct by (G, H, mode, symmetry).')
     ev.assumptions = ['TLC evaluates the declarative definitions correctly', 'two thirds of the matchers of a worker share one symmetry cache (history of patterns analysed before)', 'node/edge equality is equality of an integer colour',
                       'when nothing is common (maximum size 0) the answer of largest_common_subgraph is not constrained']
-    rng = random.Random(seed)
-    cases = list(small_scope(tier))
-    cases += list(structured(rng, 150 if tier == 'quick' else 4000))
-    rings = list(coloured_rings(rng))
-    cases += [r for r in rings if tier != 'quick' or len(r[1]['nodes']) <= 6]
-    parts = common.chunks(cases, tlc.NCPU * 2)
-    with mp.Pool(tlc.NCPU) as pool:
-        evs = pool.map(_run_events, [(p, seed) for p in parts])
+    nparts = tlc.NCPU * 2
+    with mp.Pool(tlc.NCPU, maxtasksperchild=1) as pool:
+        evs = pool.map(_run_events, [(tier, seed, part, nparts) for part in range(nparts)], chunksize=1)
     events = [e for p in evs for e in p]
     fam = judge_events(events, ev, vd)
     ev.exhaustive = True
